@@ -34,4 +34,13 @@ public:
     const std::string & label() const;
     int n;
 };
+class Gauge {
+public:
+    Gauge();
+    ~Gauge();
+    int get() const;
+    int level;
+};
+enum Tone { DULL, BRIGHT = 4 };
+int paint(Tone tone, int coats);
 #endif
